@@ -3,7 +3,7 @@
    Model/Cable.v (assembly of the cable system of a cell; schemes).  The conductance
    formulas G*.X are regenerated from /repo on every run. *)
 From Coq Require Import Reals List Lia Lra.
-From JV Require Import Prim TreeSolve TreeSolveFacts Cable GCellUtils CableFacts HinesArr HinesCheck HinesArrFacts HinesIdx HinesTreeFacts HinesIdxFacts HinesArrPositive AsmStruct AssembleM AssembleTotal AsmIdx AsmIdxFacts AssembleGraph AsmGraphFacts.
+From JV Require Import Prim TreeSolve TreeSolveFacts Cable GCellUtils CableFacts HinesArr HinesCheck HinesArrFacts HinesIdx HinesTreeFacts HinesIdxFacts HinesArrPositive AsmStruct AssembleM AssembleTotal AsmIdx AsmIdxFacts AssembleGraph AsmGraphFacts EdgeCond EdgeCondFacts GraphStruct GraphStructFacts.
 Import ListNotations.
 Local Open Scope R_scope.
 
@@ -233,6 +233,40 @@ Theorem C01_every_cell_step_solves_the_cable_graph_equations :
      forall b k, (b < length ps)%nat -> (k < pl ly b)%nat -> x (cs ly b + k)%nat = out (cs ly b + k)%nat).
 Proof. exact cell_step_solves_the_graph_equations. Qed.
 
+(* ... in the physical parameters: Model/EdgeCond.v is compute_axial_conductances (compared with the code on every
+   sampled module); its conductances are the traced Layer-G formulas of the right pair of compartments
+   (C01_edge_conductances_are_the_traced_formulas), positive for positive parameters, and the coupling of two
+   neighbouring compartments is ONE physical conductance seen from either side.  For EVERY cell, all positive radii,
+   lengths, axial resistivities and capacitances, non-negative membrane conductances and every dt > 0: *)
+Theorem C01_every_cell_step_in_physical_parameters :
+  forall (ps ns : list nat) (rad len ra cm v vt ct : nat -> R) (dt : R),
+  (1 <= length ps)%nat -> (forall b, (1 <= b)%nat -> (b < length ps)%nat -> (nth b ps 0 < b)%nat) ->
+  (forall b, (b < length ps)%nat -> (1 <= nth b ns 0)%nat) ->
+  (forall c, 0 < rad c /\ 0 < len c /\ 0 < ra c /\ 0 < cm c) ->
+  0 < dt -> (forall i, (i < total ps ns)%nat -> 0 <= vt i) ->
+  let es := cell_edges ps ns rad len ra cm in
+  let ly := layout_of ps ns in let tp := topo_of ps in
+  let mask := nthD (mask_of ps ns) in let n := total ps ns in
+  let s0 := assemble R Rplus Rminus Rmult 0 1 mask n es v vt ct dt (group_of ps) (child_inds_of ps) (par_inds_of ps) in
+  let out := sv (run R Rplus Rminus Rmult Rdiv 0 1 ly (ops_of_tree ps ns) s0) in
+  (exists y, graph_eq ly tp mask n es v vt ct dt out y) /\
+  (forall x y, graph_eq ly tp mask n es v vt ct dt x y ->
+     forall b k, (b < length ps)%nat -> (k < pl ly b)%nat -> x (cs ly b + k)%nat = out (cs ly b + k)%nat).
+Proof. exact cell_step_physical. Qed.
+
+Theorem C01_edge_conductances_are_the_traced_formulas : forall (rad len ra cm : nat -> R) (snk src : nat),
+  cond0 R Rplus Rmult Rdiv 10000000 rad len ra cm snk src
+    = coupling_cond__g (rad snk) (rad src) (ra snk) (ra src) (len snk) (len src) / cm snk /\
+  cond12 R Rmult Rdiv 10000000 rad len ra cm snk = coupling_cond_branchpoint__g (rad snk) (ra snk) (len snk) / cm snk /\
+  cond34 R Rmult Rdiv 1000 rad len ra src = impact_on_node__g (rad src) (ra src) (len src) * 1000.
+Proof. intros. split; [apply cond0_is_traced | split; [apply cond12_is_traced | apply cond34_is_traced]]. Qed.
+
+Theorem C01_coupling_is_reciprocal : forall (rad len ra cm : nat -> R),
+  (forall c, 0 < rad c /\ 0 < len c /\ 0 < ra c /\ 0 < cm c) -> forall a b,
+  cond0 R Rplus Rmult Rdiv 10000000 rad len ra cm a b * (cm a * area (rad a) (len a))
+  = cond0 R Rplus Rmult Rdiv 10000000 rad len ra cm b a * (cm b * area (rad b) (len b)).
+Proof. exact cond0_reciprocal. Qed.
+
 (* the same identification for any structure that passes the (decidable) consistency conditions, e.g. a network:
    the system represented by the assembled arrays IS the graph system *)
 Theorem C01_assembled_system_is_the_graph_system :
@@ -245,6 +279,24 @@ Theorem C01_assembled_system_is_the_graph_system :
   forall x y, sat ly tp (assemble R Rplus Rminus Rmult 0 1 mask ncomp es v vt ct dt group child_inds par_inds) x y
               <-> graph_eq ly tp mask ncomp es v vt ct dt x y.
 Proof. exact sat_iff_graph. Qed.
+
+(* ... and for any structure - e.g. a NETWORK - whose integer arrays pass the verified schedule checker and the two
+   decidable consistency checks (all three evaluated by the harness on the arrays the code built): for all positive
+   conductances, non-negative membrane terms and every dt > 0 the step returns the unique solution of the graph
+   equations.  (For cells the three checks are theorems; for networks they are evaluated per sampled structure.) *)
+Theorem C01_accepted_structure_step_solves_the_graph_equations :
+  forall (ly : layout) (tp : topo) (ops : list op) (mask : nat -> nat) (ncomp : nat) (es : list (edge R))
+         (v vt ct : nat -> R) (dt : R) (group child_inds par_inds : list nat),
+  check_schedule ly tp ops = true ->
+  asm_struct_b ly tp mask (map strip es) group child_inds par_inds = true ->
+  graph_struct_b ly tp mask ncomp (map strip es) group child_inds par_inds = true ->
+  0 < dt -> (forall e, In e es -> 0 < e_g R e) -> (forall i, (i < ncomp)%nat -> 0 <= vt i) ->
+  let s0 := assemble R Rplus Rminus Rmult 0 1 mask ncomp es v vt ct dt group child_inds par_inds in
+  let out := sv (run R Rplus Rminus Rmult Rdiv 0 1 ly ops s0) in
+  (exists y, graph_eq ly tp mask ncomp es v vt ct dt out y) /\
+  (forall x y, graph_eq ly tp mask ncomp es v vt ct dt x y ->
+     forall b k, (b < nb tp)%nat -> (k < pl ly b)%nat -> x (cs ly b + k)%nat = out (cs ly b + k)%nat).
+Proof. exact accepted_structure_step_solves_the_graph_equations. Qed.
 
 (* non-vacuity of its hypotheses: the edge table of the example cell with unit conductances *)
 Example C01_cell_edges_example :
